@@ -227,6 +227,10 @@ func tail(path string, n int) string {
 	return string(b)
 }
 
+// raceIsViolation: properties for which a data race between library goroutines is itself a
+// violation ("never races", "no interleaving makes the library ... panic").
+var raceIsViolation = map[string]bool{"C05": true, "C06": true}
+
 var crashRe = regexp.MustCompile(`(?m)^(panic: .*|fatal error: .*)$`)
 var frameRe = regexp.MustCompile(`(?m)^(github\.com/fullstorydev/grpchan[^\s(]*)\(`)
 
@@ -404,8 +408,15 @@ func parent(prop, tier, only string) int {
 			raceViol++
 			merged.Violations = append(merged.Violations, Violation{Sig: "race/" + rr.key, Msg: "race detector: library code races with the application's use of a message", Phase: "race", Witness: rr.text})
 		default:
-			fmt.Printf("RACE-NOTE property=%s %s (x%d)\n", prop, rr.key, rr.count)
 			merged.Counters["race.library_internal_reports"] += int64(rr.count)
+			if raceIsViolation[prop] {
+				// a data race inside the library under this property's workload (state that the
+				// property's guarantees rest on: stream/channel bookkeeping, message hand-over)
+				raceViol++
+				merged.Violations = append(merged.Violations, Violation{Sig: "race-internal/" + rr.key, Msg: "race detector: data race between two library goroutines", Phase: "race", Witness: rr.text})
+			} else {
+				fmt.Printf("RACE-NOTE property=%s %s (x%d)\n", prop, rr.key, rr.count)
+			}
 		}
 	}
 
